@@ -7,7 +7,7 @@
 (*   ExchReq(x, c) (ExchangeReserved called on connection x with c's       *)
 (*   query), ExchRet(x, c, r) (r = ok | err | ctx), UClose(x) (Close() on  *)
 (*   a live dialled connection), Kill(x, k) (the harness kills the fake    *)
-(*   connection), TClose, TCloseRet, Return(c, res).                       *)
+(*   connection), Withdraw(x), Parked(c), TClose, TCloseRet, Return(c, res)*)
 (* x is the harness' dial number; hid binds it to the spec's connection.   *)
 (* Silent: GetRX, EarlyWake, EarlyCtx, Retry, Fail, TCloseLock, TCloseOne  *)
 (* on a connection that is not dialled or already dead.                  *)
@@ -51,6 +51,11 @@ Logged ==
          /\ \/ Ev.r = "ok" /\ ExchOk(Ev.c)
             \/ Ev.r = "err" /\ ExchFail(Ev.c)
             \/ Ev.r = "ctx" /\ ExchCtx(Ev.c)
+    \/ IsEvent("Withdraw") /\ \E c \in Calls : cur[c] # 0 /\ hid[cur[c]] = Ev.x /\ Withdraw(c)
+    \* observation of the controller (goroutine dump): call c has not returned, and its goroutine as well as every
+    \* other goroutine of the code is blocked (not runnable): c is queued on a connection that is still dialing and
+    \* every dial goroutine that was spawned has reached the dial function
+    \/ IsEvent("Parked") /\ pc[Ev.c] = "early" /\ (\A x \in ConnIds : dpc[x] # "spawned") /\ UNCHANGED vars
     \/ IsEvent("UClose") /\ Known(Ev.x)
          /\ \/ lz[ConnOf(Ev.x)] = "dialed" /\ health[ConnOf(Ev.x)] # "dead" /\ TCloseOne(ConnOf(Ev.x))
             \/ DialCloseLate(ConnOf(Ev.x))
